@@ -65,13 +65,13 @@ def accessed_addresses(c, post, S):
     return out
 
 
-def compare(eng, name, args, affs, l, opbits):
+def compare(eng, name, args, affs, l, opbits, adbits=32):
     """-> list of (resource, status, model) for resources that differ; raises Unsupported/IllTyped"""
     c = ir2smt.Ctx(strict=False, flat=True)
     post = ir2smt.apply_affs(affs, c)
     nxt = z3.BitVecVal(l, 32)
     S = SPEC.Spec(c, nxt)
-    SPEC.sem(name, S, args, {'opsize': opbits, 'l': l})
+    SPEC.sem(name, S, args, {'opsize': opbits, 'l': l, 'adsize': adbits})
     pre = z3.And(*S.assume) if S.assume else z3.BoolVal(True)
     # keep counterexamples replayable on the CPU when possible: every touched address inside the scratch window
     win = []
@@ -160,7 +160,7 @@ def run_sem(job, res, tier):
         except Exception:
             return ('SKIP',)              # C11
         try:
-            c, post, S, bad = compare(eng, name, args, affs, i.l, opbits)
+            c, post, S, bad = compare(eng, name, args, affs, i.l, opbits, 16 if i.admode == E.A.u16 else 32)
         except SPEC.Unsupported as ex:
             return ('UNSUP', str(ex))
         except (ir2smt.IllTyped, ir2smt.Untranslatable) as ex:
@@ -264,7 +264,7 @@ affs = EH.get_instr_expr(i, X.ExprInt(M.uint32(i.l)), []); args = i.arg_expr
 print(data.hex(), str(i).strip()); [print('   ', a) for a in affs]
 c = ir2smt.Ctx(strict=False, flat=True)
 post = ir2smt.apply_affs(affs, c)
-S = SPEC.Spec(c, z3.BitVecVal(i.l, 32)); SPEC.sem(i.m.name, S, args, {'opsize': 16 if i.opmode == u16 else 32, 'l': i.l})
+S = SPEC.Spec(c, z3.BitVecVal(i.l, 32)); SPEC.sem(i.m.name, S, args, {'opsize': 16 if i.opmode == u16 else 32, 'l': i.l, 'adsize': 16 if i.admode == u16 else 32})
 sub = []
 for k, v in st['ids'].items():
     nm, sz = k.rsplit(':', 1); sub.append((c.id(nm, int(sz)), z3.BitVecVal(v, int(sz))))
